@@ -83,3 +83,20 @@ def unchanged_data(c, t, snap):
         conds.append(n == n0)
         conds.append(c.forall(n0, lambda k, get=get, old=old: c.eq(get(k), old.get(k))))
     return c.And(*conds) if conds else True
+
+
+def shares_storage(r, t):
+    """ownership (C16): r holds a stored representation of t itself, or a pose list whose element matrices are
+    t's own matrix objects (a slice / shallow copy of t's list) -- an in-place operation on one would then be
+    visible through the other"""
+    if r is t:
+        return True
+    for f, v in r.__dict__.items():
+        w = t.__dict__.get(f)
+        if w is None or not isinstance(v, (sym.SArr, sym.SSeq)):
+            continue
+        if v is w:
+            return True
+        if isinstance(v, sym.SSeq) and isinstance(w, sym.SSeq) and (v.owners & w.owners):
+            return True
+    return False
